@@ -1,8 +1,10 @@
 pub mod c01;
 pub mod c02;
 pub mod c04;
+pub mod c06;
 pub mod c07;
 pub mod c12;
+pub mod c17;
 pub mod c18;
 pub mod selftest;
 
@@ -13,8 +15,10 @@ pub fn run(ctx: &Ctx, out: &mut Out) -> bool {
         "C01" => c01::run(ctx, out),
         "C02" => c02::run(ctx, out),
         "C04" => c04::run(ctx, out),
+        "C06" => c06::run(ctx, out),
         "C07" => c07::run(ctx, out),
         "C12" => c12::run(ctx, out),
+        "C17" => c17::run(ctx, out),
         "C18" => c18::run(ctx, out),
         "SELFTEST" => selftest::run(ctx, out),
         _ => return false,
